@@ -190,8 +190,8 @@ Definition prop (c : case) : bool :=
 
 (* ------------------------------------------------------------------ guards *)
 
-(** [fx]: which candidate repairs the implementation is expected to contain
-    ([fx_none]: the tree as it is).  A repaired finding has no guard any more. *)
+(** [fx]: which repairs the implementation is expected to contain
+    ([fx_all6]: the tree as it is, /repo 0b950ef).  A repaired finding has no guard any more. *)
 Definition check (fx : fixes) (c : case) : verdict :=
   let steps := map os_step (c_steps c) in
   let rp := match c_rep c with Some r => Some (rp_step r) | None => None end in
